@@ -351,11 +351,13 @@ impl FailSafe {
         Ok(())
     }
 
-    pub fn disarm<'a>(
-        &mut self,
-        session_mode: &SessionMode,
-        fabrics: &'a mut Fabrics,
-    ) -> Result<&'a mut Fabric, Error> {
+    /// Check that `disarm` would succeed on a session in `session_mode` and return the
+    /// index of the fabric the fail-safe is armed for, without changing any state.
+    ///
+    /// This lets the caller make the commissioned configuration durable _before_ the
+    /// fail-safe is disarmed: if persisting fails, the fail-safe stays armed and its
+    /// expiry rolls the configuration back.
+    pub fn check_disarm(&self, session_mode: &SessionMode) -> Result<NonZeroU8, Error> {
         if matches!(self.state, State::Idle) {
             error!("Received Fail-Safe Disarm without it being armed");
             return Err(ErrorCode::FailSafeRequired.into());
@@ -370,6 +372,16 @@ impl FailSafe {
             NocFlags::empty(),
             NocFlags::empty(),
         )?;
+
+        Ok(fab_idx)
+    }
+
+    pub fn disarm<'a>(
+        &mut self,
+        session_mode: &SessionMode,
+        fabrics: &'a mut Fabrics,
+    ) -> Result<&'a mut Fabric, Error> {
+        let fab_idx = self.check_disarm(session_mode)?;
 
         let fabric = fabrics.fabric_mut(fab_idx)?;
 
